@@ -174,18 +174,29 @@ def run(v):
 
 def replay(v, obj):
     e = obj["event"]
+    ser, org, utils = cells.api()
     if e["ev"] == "enc":
-        ev = enc_event({k: e[k] for k in ("r", "f", "s", "d")}, e.get("exp"))
+        evs = [enc_event({k: e[k] for k in ("r", "f", "s", "d")}, e.get("exp"))]
+    elif e["ev"] == "nofit":
+        ne = {"ev": "nofit", "r": e["r"], "f": e["f"], "s": e["s"], "S": e["S"], "raised": False, "got": ""}
+        try:
+            ne["got"] = hex(ser.serialize(utils.A5Cell(origin=org.origins[e["f"]], segment=e["s"], S=int(e["S"], 16), resolution=e["r"])))
+        except Exception:
+            ne["raised"] = True
+        evs = [ne]
+    elif e["ev"] in ("count", "numcells"):
+        evs = [x for x in count_events(max(e["r"], 0) if e["ev"] == "count" else 0, 30) if x["ev"] == e["ev"] and x["r"] == e["r"]]
     else:
-        raise core.MachineryError("replay supports enc events")
+        raise core.MachineryError("unknown event kind in replay file")
     d = core.workdir("C05_replay")
     params.stage(d)
-    tres, bad = core.judge(d, "Trace_Layout", [ev] * 1, timeout=300)
+    tres, bad = core.judge(d, "Trace_Layout", evs, timeout=300)
     v.add_tlc("Trace_Layout", tres)
-    v.traces += 1
-    v.sample(ev)
+    v.traces += len(evs)
+    v.sample(evs[0])
     for i, clauses in bad.items():
+        ev = evs[i]
         real = [c for c in clauses if c.startswith("C05")]
         if real:
             v.violation(real[0], ev, {"check": "C05", "event": ev}, {"clause": real[0], "r": ev.get("r"), "exc_has": "negative shift count" if "negative shift count" in ev.get("exc", "") else ""})
-    return "replay of one recorded event"
+    return "replay of one recorded observation"
